@@ -121,11 +121,22 @@ func rawList(c *ev.Case, o *rawOpts, depth int, classes *[]string) []byte {
 				continue
 			}
 			l := r.IntN(21)
+			if r.IntN(4) == 0 {
+				l = 18
+			}
 			payload = fillerImage(c, l)
 			if l >= 2 {
 				fam := []uint16{0, 1, 2, 3, 8, 65534, 65535, uint16(r.Uint32())}[r.IntN(8)]
+				if l == 18 && r.IntN(2) == 0 {
+					fam = 2
+				}
 				binary.BigEndian.PutUint16(payload, fam)
 				cls = fmt.Sprintf("Address/fam=%d/len=%d", min(int(fam), 4), l)
+				if fam == 2 && l == 18 && r.IntN(2) == 0 {
+					// an IPv4-mapped IPv6 address (::ffff:a.b.c.d): 16 bytes on the wire like any other
+					copy(payload[2:], []byte{0, 0, 0, 0, 0, 0, 0, 0, 0, 0, 0xff, 0xff})
+					cls += "/v4-mapped"
+				}
 			} else {
 				cls = fmt.Sprintf("Address/len=%d", l)
 			}
@@ -309,6 +320,14 @@ func compareFraming(lib []*diam.AVP, ref []refTree, path string) string {
 				return d
 			}
 		case refcodec.Address:
+			if !addressInvalid(r.rec.Payload) && binary.BigEndian.Uint16(r.rec.Payload) == 2 {
+				// the payload bytes the decoder reports for an IPv6-family address are the 16 of the
+				// wire, whatever they are (an IPv4-mapped address included: its re-encoding is the
+				// known finding of C01/C02, the bytes reported here are not)
+				if v, ok := a.Data.(datatype.Address); ok && !bytes.Equal([]byte(v), r.rec.Payload[2:]) {
+					return fmt.Sprintf("%s: Address (family 2) reported as %x, the wire carries %x", p, []byte(v), r.rec.Payload[2:])
+				}
+			}
 			if addressInvalid(r.rec.Payload) || gen.RiskAddress(binary.BigEndian.Uint16(r.rec.Payload), r.rec.Payload[2:]) {
 				continue
 			}
@@ -354,6 +373,61 @@ func TestC04(t *testing.T) {
 	if rec.Race() {
 		n = rec.N(4000, 100000)
 	}
+	// the same host names in different spellings, one message after the other (what one message
+	// carried must not colour the payload bytes reported for the next: names compare without
+	// regard to case, the bytes on the wire are what they are)
+	rec.Suite("identity-spellings", rec.N(200, 20000), func(c *ev.Case) {
+		r := c.R
+		ctx := ctxs[c.I%len(ctxs)]
+		code := uint32(9003)
+		if _, err := ctx.Parser.FindAVP(0, "G-Ident"); err != nil {
+			code = 264
+		}
+		base := fmt.Sprintf("host%d.realm%d.example.net", r.IntN(50), r.IntN(5))
+		spell := func(k int) []byte {
+			b := []byte(base)
+			for i := range b {
+				switch k {
+				case 1:
+					if i%2 == 0 && b[i] >= 'a' && b[i] <= 'z' {
+						b[i] -= 32
+					}
+				case 2:
+					if b[i] >= 'a' && b[i] <= 'z' {
+						b[i] -= 32
+					}
+				}
+			}
+			return b
+		}
+		c.Class("identity-spellings/%s", ctx.Name)
+		for _, k := range []int{0, 1, 0, 2, 1} {
+			id := spell(k)
+			body := append(rawHeader(code, 0x40, 0, 8+len(id)), id...)
+			for len(body)%4 != 0 {
+				body = append(body, 0)
+			}
+			grp := append(rawHeader(9018, 0x40, 0, 8+len(body)), body...)
+			if code == 264 {
+				grp = nil
+			}
+			full := append(append([]byte(nil), body...), grp...)
+			h := refcodec.Header{Version: 1, Flags: 0x80, Code: 257, HopByHop: 1, EndToEnd: 1, Length: uint32(20 + len(full))}
+			wire := append(refcodec.EncodeHeader(h), full...)
+			var facts refFacts
+			ref, rerr := frameTree(full, ctx.TypeFunc(0), &facts)
+			m, err := diam.ReadMessage(bytes.NewReader(wire), ctx.Parser)
+			if rerr != nil || err != nil {
+				c.Fail(ev.Sig{"op": "rejected-wellframed", "how": "identity-spellings"}, wire, nil, "a message carrying the host name %q: reference %v, library %v", id, rerr, err)
+				return
+			}
+			if d := compareFraming(m.AVP, ref, ""); d != "" {
+				c.Fail(ev.Sig{"op": "framing-differs", "how": "identity-spellings"}, wire, nil, "the host name %q, received after the same name in other spellings: %s", id, d)
+				return
+			}
+		}
+		c.Event("wellframed_accepted_equal", 5)
+	})
 	// nesting up to 100 levels (the decoder accepts 128): framing must hold at the bottom as well
 	rec.Suite("deep-chains", rec.N(400, 20000), func(c *ev.Case) {
 		ctx := ctxs[0]
